@@ -49,7 +49,15 @@ impl D {
 }
 
 #[derive(Clone, Debug)]
-pub struct Num { pub integer: bool, pub min: Option<(String, bool)>, pub max: Option<(String, bool)>, pub mult: Option<String> }
+pub struct Num {
+    pub integer: bool,
+    pub min: Option<(String, bool)>,
+    pub max: Option<(String, bool)>,
+    pub mult: Option<String>,
+    /// second keyword on the same side with the other exclusivity (minimum together with exclusiveMinimum ...)
+    pub min2: Option<String>,
+    pub max2: Option<String>,
+}
 
 impl Num {
     pub fn schema(&self) -> Value {
@@ -58,15 +66,43 @@ impl Num {
         let num = |s: &str| -> Value { serde_json::from_str(s).unwrap() };
         if let Some((v, ex)) = &self.min { m.insert(if *ex { "exclusiveMinimum" } else { "minimum" }.into(), num(v)); }
         if let Some((v, ex)) = &self.max { m.insert(if *ex { "exclusiveMaximum" } else { "maximum" }.into(), num(v)); }
+        if let (Some((_, ex)), Some(v)) = (&self.min, &self.min2) { m.insert(if *ex { "minimum" } else { "exclusiveMinimum" }.into(), num(v)); }
+        if let (Some((_, ex)), Some(v)) = (&self.max, &self.max2) { m.insert(if *ex { "maximum" } else { "exclusiveMaximum" }.into(), num(v)); }
         if let Some(v) = &self.mult { m.insert("multipleOf".into(), num(v)); }
         Value::Object(m)
     }
+    /// every lower / upper bound keyword present, as (value, exclusive)
+    pub fn lows(&self) -> Vec<(String, bool)> {
+        let mut v = vec![];
+        if let Some((a, ex)) = &self.min { v.push((a.clone(), *ex)); if let Some(b) = &self.min2 { v.push((b.clone(), !*ex)); } }
+        v
+    }
+    pub fn highs(&self) -> Vec<(String, bool)> {
+        let mut v = vec![];
+        if let Some((a, ex)) = &self.max { v.push((a.clone(), *ex)); if let Some(b) = &self.max2 { v.push((b.clone(), !*ex)); } }
+        v
+    }
+    /// the binding bound of a side (largest lower / smallest upper; exclusive wins a tie)
+    pub fn eff_min(&self) -> Option<(String, bool)> {
+        self.lows().into_iter().max_by(|a, b| D::parse(&a.0).unwrap().cmp(&D::parse(&b.0).unwrap()).then(a.1.cmp(&b.1)))
+    }
+    pub fn eff_max(&self) -> Option<(String, bool)> {
+        self.highs().into_iter().min_by(|a, b| D::parse(&a.0).unwrap().cmp(&D::parse(&b.0).unwrap()).then(b.1.cmp(&a.1)))
+    }
     pub fn admits(&self, lit: &D) -> bool {
-        if let Some((v, ex)) = &self.min {
+        for (v, ex) in self.lows() {
+            let b = D::parse(&v).unwrap();
+            match lit.cmp(&b) { std::cmp::Ordering::Less => return false, std::cmp::Ordering::Equal if ex => return false, _ => {} }
+        }
+        for (v, ex) in self.highs() {
+            let b = D::parse(&v).unwrap();
+            match lit.cmp(&b) { std::cmp::Ordering::Greater => return false, std::cmp::Ordering::Equal if ex => return false, _ => {} }
+        }
+        if let Some((v, ex)) = &None::<(String, bool)> {
             let b = D::parse(v).unwrap();
             match lit.cmp(&b) { std::cmp::Ordering::Less => return false, std::cmp::Ordering::Equal if *ex => return false, _ => {} }
         }
-        if let Some((v, ex)) = &self.max {
+        if let Some((v, ex)) = &None::<(String, bool)> {
             let b = D::parse(v).unwrap();
             match lit.cmp(&b) { std::cmp::Ordering::Greater => return false, std::cmp::Ordering::Equal if *ex => return false, _ => {} }
         }
@@ -96,10 +132,43 @@ fn fmt_dec(mant: i128, scale: u32) -> String {
     s
 }
 
+/// exact: does some number satisfy all keywords?
+pub fn satisfiable(n: &Num) -> bool {
+    let lo = n.eff_min().map(|(v, ex)| (D::parse(&v).unwrap(), ex));
+    let hi = n.eff_max().map(|(v, ex)| (D::parse(&v).unwrap(), ex));
+    // common scale
+    let mut sc = 0u32;
+    for d in [lo.map(|x| x.0), hi.map(|x| x.0), n.mult.as_ref().map(|m| D::parse(m).unwrap())].into_iter().flatten() { sc = sc.max(d.scale); }
+    let up = |d: D| d.mant * 10i128.pow(sc - d.scale);
+    let unit = 10i128.pow(sc);
+    // step: values must be multiples of `step` (in units of 10^-sc); for integers also of `unit`
+    let m = n.mult.as_ref().map(|m| up(D::parse(m).unwrap()));
+    if m == Some(0) { return false; }
+    let step = match (m, n.integer) {
+        (Some(m), true) => { let g = gcd(m, unit); m / g * unit }
+        (Some(m), false) => m,
+        (None, true) => unit,
+        (None, false) => 0, // dense
+    };
+    match (lo, hi) {
+        (Some((l, lex)), Some((h, hex))) => {
+            let (l, h) = (up(l), up(h));
+            if step == 0 { return l < h || (l == h && !lex && !hex); }
+            // smallest multiple of step >= l (or > l)
+            let mut k = l.div_euclid(step) * step;
+            if k < l || (k == l && lex) { k += step; }
+            k < h || (k == h && !hex)
+        }
+        _ => true,
+    }
+}
+
+fn gcd(a: i128, b: i128) -> i128 { if b == 0 { a.abs() } else { gcd(b, a % b) } }
+
 /// literals in and around the bounds: 0..=4 fractional digits, trailing zeros, shorter forms
 fn literals(n: &Num, rng: &mut Rng) -> Vec<String> {
     let mut pts: Vec<D> = vec![D { mant: 0, scale: 0 }];
-    for b in [&n.min, &n.max].into_iter().flatten() { pts.push(D::parse(&b.0).unwrap()); }
+    for b in n.lows().iter().chain(n.highs().iter()) { pts.push(D::parse(&b.0).unwrap()); }
     let mut out: Vec<String> = vec![];
     for p in pts.clone() {
         for scale in 0..=4u32 {
@@ -114,7 +183,7 @@ fn literals(n: &Num, rng: &mut Rng) -> Vec<String> {
         }
     }
     // integers across the interval and a few random points inside
-    let (lo, hi) = match (&n.min, &n.max) {
+    let (lo, hi) = match (&n.eff_min(), &n.eff_max()) {
         (Some(a), Some(b)) => (D::parse(&a.0).unwrap(), D::parse(&b.0).unwrap()),
         (Some(a), None) => { let a = D::parse(&a.0).unwrap(); (a, D { mant: a.mant + 1500 * 10i128.pow(a.scale), scale: a.scale }) }
         (None, Some(b)) => { let b = D::parse(&b.0).unwrap(); (D { mant: b.mant - 1500 * 10i128.pow(b.scale), scale: b.scale }, b) }
@@ -163,6 +232,18 @@ fn rand_dec(rng: &mut Rng) -> String {
     s
 }
 
+/// sometimes state both keywords of a side (minimum and exclusiveMinimum ...), equal or one unit apart
+fn add_second(n: &mut Num, rng: &mut Rng) {
+    let shift = |v: &str, d: i128| -> String {
+        let x = D::parse(v).unwrap();
+        let mut s = fmt_dec(x.mant + d, x.scale);
+        if s.contains('.') { while s.ends_with('0') { s.pop(); } if s.ends_with('.') { s.pop(); } }
+        if s == "-0" { "0".to_string() } else { s }
+    };
+    if let Some((v, _)) = &n.min { if rng.chance(1, 2) { n.min2 = Some(shift(v, rng.range(-1, 1) as i128)); } }
+    if let Some((v, _)) = &n.max { if n.min2.is_none() || rng.chance(1, 2) { n.max2 = Some(shift(v, rng.range(-1, 1) as i128)); } }
+}
+
 pub fn check_num(w: &World, n: &Num, rng: &mut Rng, rep: &mut Report, case: &Value) -> Vec<(String, bool)> {
     let mut verdicts = vec![];
     rep.evaluations += 1;
@@ -170,13 +251,16 @@ pub fn check_num(w: &World, n: &Num, rng: &mut Rng, rep: &mut Report, case: &Val
     let g = Gram::Json(schema.clone());
     let base = w.matcher(&g);
     let lits = literals(n, rng);
-    let any_expected = lits.iter().any(|l| D::parse(l).map(|d| n.admits(&d)).unwrap_or(false));
+    let any_expected = satisfiable(n);
     if base.is_error() {
         let msg = crate::eng::err_class(&base.get_error().unwrap_or_default());
         // rejection at compile time is right iff no value satisfies the keywords
         let inexact = explained_by_f64(n, None, false);
+        // rx_int_range refuses a half-open range whose bound has 19 digits (i64 guard; the Lean model has the same error branch)
+        let huge = n.integer && msg.contains("Failed to generate regex for integer range")
+            && f64_view(n).map(|(lo, hi)| [lo, hi].into_iter().flatten().any(|v| v.unsigned_abs() >= 1_000_000_000_000_000_000)).unwrap_or(false);
         if any_expected {
-            rep.fail("spec", if inexact { "c08:integer-bound-beyond-2^53" } else { "c08:satisfiable-schema-rejected" }, format!("schema {schema} rejected ({msg}) although e.g. {:?} satisfies it", lits.iter().find(|l| D::parse(l).map(|d| n.admits(&d)).unwrap_or(false))), json!({"case": case, "schema": schema}));
+            rep.fail("spec", if inexact { "c08:integer-bound-beyond-2^53" } else if huge { "c08:integer-bound-19-digits-refused" } else { "c08:satisfiable-schema-rejected" }, format!("schema {schema} rejected ({msg}) although it is satisfiable (e.g. {:?} of the grid)", lits.iter().find(|l| D::parse(l).map(|d| n.admits(&d)).unwrap_or(false))), json!({"case": case, "schema": schema}));
         } else {
             rep.count("schemas.rejected_empty");
         }
@@ -205,8 +289,9 @@ pub fn check_num(w: &World, n: &Num, rng: &mut Rng, rep: &mut Report, case: &Val
             if !(sig.contains("trailing-zero")) { return verdicts; }
         }
     }
-    if n_in == 0 && !any_expected {
-        rep.fail("spec", "c08:empty-schema-compiled", format!("schema {schema} compiled although no literal of the grid satisfies it"), json!({"case": case, "schema": schema}));
+    let _ = n_in;
+    if !any_expected {
+        rep.fail("spec", "c08:empty-schema-compiled", format!("schema {schema} compiled although no number satisfies it (exact arithmetic)"), json!({"case": case, "schema": schema}));
     }
     verdicts
 }
@@ -222,8 +307,18 @@ fn f64_exact(s: &str) -> bool {
 /// `None` = schema rejected as empty, `Some((lo, hi))` = the i64 bounds handed to rx_int_range.
 /// Only used to decide whether a failure on bounds beyond 2^53 is the recorded rounding finding.
 fn f64_view(n: &Num) -> Option<(Option<i64>, Option<i64>)> {
-    let p = |x: &Option<(String, bool)>| x.as_ref().map(|(v, ex)| (v.parse::<f64>().unwrap(), *ex));
-    let (mn, mx) = (p(&n.min), p(&n.max));
+    // NumberSchema::get_minimum / get_maximum on the f64 values (the exclusive keyword wins a tie)
+    let side = |all: Vec<(String, bool)>, lower: bool| -> Option<(f64, bool)> {
+        let inc = all.iter().find(|b| !b.1).map(|b| b.0.parse::<f64>().unwrap());
+        let exc = all.iter().find(|b| b.1).map(|b| b.0.parse::<f64>().unwrap());
+        match (inc, exc) {
+            (Some(i), Some(x)) => if (lower && x >= i) || (!lower && x <= i) { Some((x, true)) } else { Some((i, false)) },
+            (Some(i), None) => Some((i, false)),
+            (None, Some(x)) => Some((x, true)),
+            (None, None) => None,
+        }
+    };
+    let (mn, mx) = (side(n.lows(), true), side(n.highs(), false));
     if let (Some((a, ea)), Some((b, eb))) = (mn, mx) {
         if a > b || (a == b && (ea || eb)) { return None; }
     }
@@ -235,7 +330,7 @@ fn f64_view(n: &Num) -> Option<(Option<i64>, Option<i64>)> {
 
 fn explained_by_f64(n: &Num, lit: Option<&D>, got: bool) -> bool {
     if !n.integer || n.mult.is_some() { return false; }
-    if [&n.min, &n.max].into_iter().flatten().all(|b| f64_exact(&b.0)) { return false; }
+    if n.lows().iter().chain(n.highs().iter()).all(|b| f64_exact(&b.0)) { return false; }
     match (f64_view(n), lit) {
         (None, None) => true,                       // rejected, and the f64 view is empty
         (Some((lo, hi)), Some(d)) => {
@@ -252,7 +347,7 @@ fn explained_by_f64(n: &Num, lit: Option<&D>, got: bool) -> bool {
 fn push_sem(mb: &mut ModelBatch, tag: usize, n: &Num, verdicts: &[(String, bool)]) {
     if !n.integer || n.mult.is_some() || verdicts.is_empty() { return; }
     let b = |x: &Option<(String, bool)>, d: i128| x.as_ref().map(|(v, ex)| { let v: i128 = v.parse().unwrap(); if *ex { v + d } else { v } });
-    let (lo, hi) = (b(&n.min, 1), b(&n.max, -1));
+    let (lo, hi) = (b(&n.eff_min(), 1), b(&n.eff_max(), -1));
     let f = |x: Option<i128>| x.map(|v| v.to_string()).unwrap_or("none".into());
     let lits: Vec<&(String, bool)> = verdicts.iter().filter(|(l, _)| !l.contains('.')).collect();
     if lits.is_empty() { return; }
@@ -281,7 +376,7 @@ pub fn run_case(_ctx: &Ctx, case: &Value, tag: usize, rep: &mut Report, mb: &mut
                         Err(_) => mb.push(format!("num int {a} {b}"), "err".into(), tag),
                     }
                     if (a + 3 * b) % 11 == 0 {
-                        let n = Num { integer: true, min: Some((a.to_string(), false)), max: Some((b.to_string(), false)), mult: None };
+                        let n = Num { integer: true, min: Some((a.to_string(), false)), max: Some((b.to_string(), false)), mult: None, min2: None, max2: None };
                         let v = check_num(&w, &n, &mut rng, rep, case);
                         push_sem(mb, tag, &n, &v);
                     }
@@ -299,7 +394,7 @@ pub fn run_case(_ctx: &Ctx, case: &Value, tag: usize, rep: &mut Report, mb: &mut
             let mut rng = Rng::new(5);
             for e in case["list"].as_array().cloned().unwrap_or_default() {
                 let b = |k: &str| e[k].as_array().map(|a| (a[0].as_str().unwrap().to_string(), a[1].as_bool().unwrap()));
-                let n = Num { integer: e["integer"].as_bool().unwrap_or(false), min: b("min"), max: b("max"), mult: e["mult"].as_str().map(|s| s.to_string()) };
+                let n = Num { integer: e["integer"].as_bool().unwrap_or(false), min: b("min"), max: b("max"), mult: e["mult"].as_str().map(|s| s.to_string()), min2: e["min2"].as_str().map(|s| s.to_string()), max2: e["max2"].as_str().map(|s| s.to_string()) };
                 let v = check_num(&w, &n, &mut rng, rep, case);
                 push_sem(mb, tag, &n, &v);
             }
@@ -318,9 +413,10 @@ pub fn run_case(_ctx: &Ctx, case: &Value, tag: usize, rep: &mut Report, mb: &mut
                 if rng.chance(3, 4) && (a.abs() >= 1 << 53 || b.abs() >= 1 << 53) { a /= 1 << 12; b = a.saturating_add(span.min(1 << 40)); }
                 let exmin = rng.chance(1, 4);
                 let exmax = rng.chance(1, 4);
-                let n = Num { integer: true, min: if rng.chance(5, 6) { Some((a.to_string(), exmin)) } else { None }, max: if rng.chance(5, 6) { Some((b.to_string(), exmax)) } else { None }, mult: None };
+                let mut n = Num { integer: true, min: if rng.chance(5, 6) { Some((a.to_string(), exmin)) } else { None }, max: if rng.chance(5, 6) { Some((b.to_string(), exmax)) } else { None }, mult: None, min2: None, max2: None };
+                if rng.chance(1, 4) { add_second(&mut n, &mut rng); }
                 let v = check_num(&w, &n, &mut rng, rep, case);
-                if [&n.min, &n.max].into_iter().flatten().all(|b| f64_exact(&b.0)) { push_sem(mb, tag, &n, &v); }
+                if n.lows().iter().chain(n.highs().iter()).all(|b| f64_exact(&b.0)) { push_sem(mb, tag, &n, &v); }
                 let f = |x: Option<i64>| x.map(|v| v.to_string()).unwrap_or("none".into());
                 for (l, r) in [(Some(a), Some(b)), (Some(a), None), (None, Some(b))] {
                     match llguidance::verif::rx_int_range(l, r) { Ok(p) => mb.push(format!("num int {} {}", f(l), f(r)), format!("ok {p}"), tag), Err(_) => mb.push(format!("num int {} {}", f(l), f(r)), "err".into(), tag) }
@@ -345,7 +441,8 @@ pub fn run_case(_ctx: &Ctx, case: &Value, tag: usize, rep: &mut Report, mb: &mut
                 let near = ai.mant / 10i128.pow(ai.scale);
                 let b = pick(&mut rng, Some(near as i64));
                 let (a, b) = if D::parse(&a).unwrap().cmp(&D::parse(&b).unwrap()) == std::cmp::Ordering::Greater { (b, a) } else { (a, b) };
-                let n = Num { integer: rng.chance(1, 8), min: if rng.chance(7, 8) { Some((a, rng.chance(1, 2))) } else { None }, max: if rng.chance(7, 8) { Some((b, rng.chance(1, 2))) } else { None }, mult: None };
+                let mut n = Num { integer: rng.chance(1, 8), min: if rng.chance(7, 8) { Some((a, rng.chance(1, 2))) } else { None }, max: if rng.chance(7, 8) { Some((b, rng.chance(1, 2))) } else { None }, mult: None, min2: None, max2: None };
+                if rng.chance(1, 4) { add_second(&mut n, &mut rng); }
                 check_num(&w, &n, &mut rng, rep, case);
             }
             rep.sample(json!({"kind": "dec-near"}));
@@ -356,7 +453,7 @@ pub fn run_case(_ctx: &Ctx, case: &Value, tag: usize, rep: &mut Report, mb: &mut
                 let a = rand_dec(&mut rng);
                 let b = rand_dec(&mut rng);
                 let (a, b) = if D::parse(&a).unwrap().cmp(&D::parse(&b).unwrap()) == std::cmp::Ordering::Greater && rng.chance(9, 10) { (b, a) } else { (a, b) };
-                let n = Num { integer: rng.chance(1, 5), min: if rng.chance(5, 6) { Some((a, rng.chance(1, 3))) } else { None }, max: if rng.chance(5, 6) { Some((b, rng.chance(1, 3))) } else { None }, mult: None };
+                let n = Num { integer: rng.chance(1, 5), min: if rng.chance(5, 6) { Some((a, rng.chance(1, 3))) } else { None }, max: if rng.chance(5, 6) { Some((b, rng.chance(1, 3))) } else { None }, mult: None, min2: None, max2: None };
                 check_num(&w, &n, &mut rng, rep, case);
             }
             rep.sample(json!({"kind": "dec-random"}));
@@ -368,8 +465,10 @@ pub fn run_case(_ctx: &Ctx, case: &Value, tag: usize, rep: &mut Report, mb: &mut
                 let a = rand_dec(&mut rng);
                 let b = rand_dec(&mut rng);
                 let (a, b) = if D::parse(&a).unwrap().cmp(&D::parse(&b).unwrap()) == std::cmp::Ordering::Greater { (b, a) } else { (a, b) };
-                let integer = rng.chance(1, 3) && !mult.contains('.');
-                let n = Num { integer, min: if rng.chance(2, 3) { Some((a, rng.chance(1, 3))) } else { None }, max: if rng.chance(2, 3) { Some((b, rng.chance(1, 3))) } else { None }, mult: Some(mult) };
+                let integer = rng.chance(1, 3);
+                // sometimes a narrow interval (emptiness must be detected at compile time)
+                let (a, b) = if rng.chance(1, 3) { let x = D::parse(&a).unwrap(); let w = [0i128, 1, 2, 5, 15][rng.below(5)]; (a.clone(), { let mut t = fmt_dec(x.mant + w, x.scale); if t.contains('.') { while t.ends_with('0') { t.pop(); } if t.ends_with('.') { t.pop(); } } if t == "-0" { "0".into() } else { t } }) } else { (a, b) };
+                let n = Num { integer, min: if rng.chance(2, 3) { Some((a, rng.chance(1, 3))) } else { None }, max: if rng.chance(2, 3) { Some((b, rng.chance(1, 3))) } else { None }, mult: Some(mult), min2: None, max2: None };
                 check_num(&w, &n, &mut rng, rep, case);
             }
             rep.sample(json!({"kind": "mult-random"}));
